@@ -168,6 +168,8 @@ let () =
           match String.split_on_char '\t' line with
           | "run" :: t :: k :: o :: _ ->
             show_res (run fuel (container_sx (parse_sx k)) (octr_sx (parse_sx t)) (obs_sx (parse_sx o)))
+          | "rundom" :: t :: k :: o :: _ ->
+            show_res (run_dom fuel (container_sx (parse_sx k)) (ctr_sx (parse_sx t)) (obs_sx (parse_sx o)))
           | "reach" :: t :: k :: o :: p :: _ ->
             ignore t;
             "REACH " ^ (if reaches fuel (container_sx (parse_sx k)) (obs_sx (parse_sx o))
